@@ -231,3 +231,61 @@ Lemma W8 : world_ok c_W8 db_W8 SCPass1 ws_W8 true
 Proof. world. Qed.
 Lemma W8_K4 : K4 (normalise c_W8 db_W8 ws_W8) = false. Proof. vm_compute. reflexivity. Qed.
 
+(* ---------------------------------------------------------------------------------------- *)
+(* W2n: the test cases of W2m without repetition conversion:  ["ba","bb"] -> ^b[ab]$
+   model output: ^b[ab]$ *)
+Definition ws_W2n : list str := [[98;97]; [98;98]].
+Definition c_W2n : cfg := (mkCfg 1 1 false false false false false false false false false false false false false false false).
+Definition db_W2n : odb := map e_plain ws_W2n.
+Lemma W2n : world_ok c_W2n db_W2n SCPass1 ws_W2n true
+  (ECat (ELit [G [[98]] [] 1 1]) (ECC [97; 98]))
+  [94; 98; 91; 97; 98; 93; 36].
+Proof. world. Qed.
+Lemma W2n_K4 : K4 (normalise c_W2n db_W2n ws_W2n) = false. Proof. vm_compute. reflexivity. Qed.
+
+(* ---------------------------------------------------------------------------------------- *)
+(* W9: digit conversion only:  ["a1","b22"]
+   model output: ^(?:b\d|a)\d$ *)
+Definition ws_W9 : list str := [[97;49]; [98;50;50]].
+Definition c_W9 : cfg := (mkCfg 1 1 true false false false false false false false false false false false false false false).
+Definition db_W9 : odb := map e_plain ws_W9.
+Lemma W9 : world_ok c_W9 db_W9 SCPass1 ws_W9 true
+  (ECat (EAlt [ELit [G [[98]] [] 1 1; G [[92; 100]] [] 1 1]; ELit [G [[97]] [] 1 1]]) (ELit [G [[92; 100]] [] 1 1]))
+  [94; 40; 63; 58; 98; 92; 100; 124; 97; 41; 92; 100; 36].
+Proof. world. Qed.
+Lemma W9_K4 : K4 (normalise c_W9 db_W9 ws_W9) = false. Proof. vm_compute. reflexivity. Qed.
+
+(* ---------------------------------------------------------------------------------------- *)
+(* W6p: W6 without syntax highlighting
+   model output: (?x)
+^
+  a[bc]
+$ *)
+Definition ws_W6p : list str := [[97;98]; [97;99]].
+Definition c_W6p : cfg := (mkCfg 1 1 false false false false false false false false false false false true false false false).
+Definition db_W6p : odb := map e_plain ws_W6p.
+Lemma W6p : world_ok c_W6p db_W6p SCPass1 ws_W6p true
+  (ECat (ELit [G [[97]] [] 1 1]) (ECC [98; 99]))
+  [40; 63; 120; 41; 10; 94; 10; 32; 32; 97; 91; 98; 99; 93; 10; 36].
+Proof. world. Qed.
+Lemma W6p_K4 : K4 (normalise c_W6p db_W6p ws_W6p) = false. Proof. vm_compute. reflexivity. Qed.
+
+
+(* side conditions used by the string-level theorems *)
+Lemma lower_scalar_b : forall db ws,
+  forallb (fun s => forallb is_scalar_value (lower' db s)) ws = true ->
+  forall s0, In s0 ws -> Forall scalar (lower' db s0).
+Proof.
+  intros db ws E s0 Hin. rewrite forallb_forall in E. specialize (E s0 Hin).
+  rewrite forallb_forall in E. apply Forall_forall. exact E.
+Qed.
+Lemma W3_lower_scalar : forall s0, In s0 ws_W3 -> Forall scalar (lower' db_W3 s0).
+Proof. apply lower_scalar_b. vm_compute. reflexivity. Qed.
+Lemma W8_lower_scalar : forall s0, In s0 ws_W8 -> Forall scalar (lower' db_W8 s0).
+Proof. apply lower_scalar_b. vm_compute. reflexivity. Qed.
+Lemma W3_printable : printable c_W3. Proof. split; reflexivity. Qed.
+Lemma W8_printable : printable c_W8. Proof. split; reflexivity. Qed.
+Lemma W9_printable : printable c_W9. Proof. split; reflexivity. Qed.
+Lemma W4a_lower_scalar : forall s0, In s0 ws_W4a -> Forall scalar (lower' db_W4a s0).
+Proof. apply lower_scalar_b. vm_compute. reflexivity. Qed.
+Lemma W4a_printable : printable c_W4a. Proof. split; reflexivity. Qed.
